@@ -61,10 +61,13 @@ def gen(case_lines, outdir, nunits=16):
             asts.setdefault(k2, c["e2"])
             pairs[(k1, k2)] = True
     apply_keys = set()
+    hi_keys = set()          # expressions that are also applied to operands of very high order
     for l in case_lines:
         c = json.loads(l)
         if c["op"] in ("OpApply", "FpApply"):
             apply_keys.add(canon(c["ast"]))
+            if c.get("tag") == "hi":
+                hi_keys.add(canon(c["ast"]))
     names = {k: "E%d" % i for i, k in enumerate(sorted(asts))}
     os.makedirs(outdir, exist_ok=True)
     items = [("A", k) for k in sorted(apply_keys)] + [("B", p) for p in sorted(pairs)]
@@ -80,8 +83,8 @@ def gen(case_lines, outdir, nunits=16):
             out.append("// %s" % k)
             # expressions with float/double literals cannot be built for the exact scalar (no conversion from floating point)
             exactable = "false" if ('"t":"flt"' in k or '"t":"dbl"' in k) else "true"
-            out.append("struct %s { static constexpr bool exactable = %s; template <typename T> static auto make([[maybe_unused]] const Factors<T> &fs) { return %s; } };"
-                       % (names[k], exactable, cxx(asts[k])))
+            out.append("struct %s { static constexpr bool exactable = %s; static constexpr bool hi = %s; template <typename T> static auto make([[maybe_unused]] const Factors<T> &fs) { return %s; } };"
+                       % (names[k], exactable, "true" if k in hi_keys else "false", cxx(asts[k])))
         for n, (kind, k) in enumerate(mine):
             if kind == "A":
                 out.append("RegApply<%s> ra%d(%s);" % (names[k], n, cstr(k)))
